@@ -496,9 +496,17 @@ fn drive<RT: AsyncRuntime + Clone>(
                     .map(|&s| SolvableId(s))
                     .collect::<Vec<_>>(),
             );
-        let res = catch_unwind(AssertUnwindSafe(|| solver.solve(problem)));
+        let mut res = catch_unwind(AssertUnwindSafe(|| solver.solve(problem)));
+        // the read-only accessor walks the solver's internal tables: if they are inconsistent it may panic, which is a
+        // crash of the subject like any other (and must not take the worker down)
         dumps.push(if sc.capture_state && matches!(res, Ok(Ok(_)) | Ok(Err(UnsolvableOrCancelled::Unsolvable(_)))) {
-            Some(solver.verif_dump())
+            match catch_unwind(AssertUnwindSafe(|| solver.verif_dump())) {
+                Ok(d) => Some(d),
+                Err(payload) => {
+                    res = Err(payload);
+                    None
+                }
+            }
         } else {
             None
         });
